@@ -129,6 +129,10 @@ pub enum K {
     // ---- cells
     CellRead { c: usize },
     CellWrite { c: usize },
+    /// `get()` / `get_mut()`: the access lasts until the matching `CellEnd` (guard held across
+    /// other operations)
+    CellBegin { c: usize, w: bool },
+    CellEnd { c: usize, w: bool },
     // ---- mutex
     Lock { m: usize },
     TryLock { m: usize },
@@ -411,6 +415,8 @@ pub fn op_text(op: &Op) -> String {
         K::Await { a, mo, want } => write!(s, "await a{}=={}.{}", a, want, mo.short()),
         K::CellRead { c } => write!(s, "rd c{}", c),
         K::CellWrite { c } => write!(s, "wr c{}", c),
+        K::CellBegin { c, w } => write!(s, "{} c{}", if *w { "get_mut" } else { "get" }, c),
+        K::CellEnd { c, w } => write!(s, "end_{} c{}", if *w { "get_mut" } else { "get" }, c),
         K::Lock { m } => write!(s, "lock m{}", m),
         K::TryLock { m } => write!(s, "trylock m{}", m),
         K::Unlock { m } => write!(s, "unlock m{}", m),
@@ -584,6 +590,10 @@ fn emit_thread(s: &mut String, p: &Program, t: usize, ind: &str) {
     for i in 0..o.mutexes {
         let _ = writeln!(s, "{}let mut g_m{}: Option<loom::sync::MutexGuard<'_, u64>> = None;", ind, i);
     }
+    for i in 0..o.cells {
+        let _ = writeln!(s, "{}let mut g_c{}r: Vec<loom::cell::ConstPtr<u64>> = vec![];", ind, i);
+        let _ = writeln!(s, "{}let mut g_c{}w: Option<loom::cell::MutPtr<u64>> = None;", ind, i);
+    }
     for i in 0..o.rwlocks {
         let _ = writeln!(s, "{}let mut g_l{}r: Option<loom::sync::RwLockReadGuard<'_, u64>> = None;", ind, i);
         let _ = writeln!(s, "{}let mut g_l{}w: Option<loom::sync::RwLockWriteGuard<'_, u64>> = None;", ind, i);
@@ -620,6 +630,10 @@ fn rust_op(t: usize, k: &K) -> String {
         K::Await { a, mo, want } => format!("loop {{ let v = a{}.load({}); if v == {} {{ r.push(v.to_string()); break; }} loom::thread::yield_now(); }}", a, mo.rust(), want),
         K::CellRead { c } => format!("c{}.with(|p| unsafe {{ std::ptr::read_volatile(p) }}); {}", c, u),
         K::CellWrite { c } => format!("c{}.with_mut(|p| unsafe {{ *p += 1 }}); {}", c, u),
+        K::CellBegin { c, w: false } => format!("g_c{0}r.push(c{0}.get()); {1}", c, u),
+        K::CellBegin { c, w: true } => format!("g_c{0}w = Some(c{0}.get_mut()); {1}", c, u),
+        K::CellEnd { c, w: false } => format!("drop(g_c{}r.pop()); {}", c, u),
+        K::CellEnd { c, w: true } => format!("drop(g_c{}w.take()); {}", c, u),
         K::Lock { m } => format!("g_m{0} = Some(m{0}.lock().unwrap()); {1}", m, u),
         K::TryLock { m } => format!("match m{0}.try_lock() {{ Ok(g) => {{ g_m{0} = Some(g); r.push(\"Ok0\".into()); }} Err(_) => r.push(\"Err0\".into()) }}", m),
         K::Unlock { m } => format!("drop(g_m{}.take()); {}", m, u),
